@@ -63,6 +63,7 @@ FAMILIES = {
     'wfam': [('wa', None), ('wb', 5)],
     'vfam': [('va', None), ('vb', 8), ('vc', 2)],
     'pfam': [('Pq', None), ('hPq', 100), ('kPq', 10)],            # unit names with capital letters
+    'sfam': [('sja', None), ('sjb', 1000), ('sjc', 1000), ('sjd', 1000), ('sje', 1000)],      # a steep chain: tiny and huge amounts (1680 sja = 1.68e-9 sje)
 }
 
 
